@@ -321,7 +321,7 @@ func main() {
 		}
 	}
 	validated := 0
-	var confirmed, unconfirmed []pending
+	var confirmed, unconfirmed, nativeViol []pending
 	nativeS := 0.0
 	if !*noNative && len(pend) > 0 {
 		tn := time.Now()
@@ -337,6 +337,14 @@ func main() {
 		for _, p := range pend {
 			out := runNative(bins[p.h.cfg.Pkg], p.file)
 			if p.sample != nil {
+				if strings.HasPrefix(out.Outcome, "assert:") || strings.HasPrefix(out.Outcome, "panic:") || strings.HasPrefix(out.Outcome, "crash:") {
+					// The real code fails the harness' assertion (or crashes) on this concrete input:
+					// a genuine violation, found by the native run of a sampled path although the
+					// engine predicted ok (e.g. behind an override that hides it from the engine).
+					label := strings.TrimPrefix(out.Outcome, "assert:")
+					nativeViol = append(nativeViol, pending{file: p.file, h: p.h, viol: &sym.Violation{Harness: p.h.cfg.Func, Kind: "native-sample", Label: label, Msg: "native run of a sampled path: " + out.Outcome + " (engine predicted ok)", Inputs: p.sample.Inputs}})
+					continue
+				}
 				if out.Outcome != "ok" {
 					broken = append(broken, fmt.Sprintf("%s: validation sample %s: native outcome %q, engine predicted ok", p.h.cfg.Name, filepath.Base(p.file), out.Outcome))
 					continue
@@ -364,6 +372,8 @@ func main() {
 			}
 		}
 	}
+
+	confirmed = append(confirmed, nativeViol...)
 
 	// ---------- verdict ----------
 	violations := 0
@@ -471,6 +481,8 @@ func main() {
 	evDir := filepath.Join(verifDir, "evidence")
 	if d := os.Getenv("VERIF_EVIDENCE_DIR"); d != "" {
 		evDir = d // runs against scratch trees (seeded changes) must not touch the real evidence
+	} else if *only != "" || *noNative || *dbgMaxPaths > 0 || *dbgBounds != "" {
+		evDir = filepath.Join(verifDir, "evidence", "debug") // partial/debugging runs are not evidence
 	}
 	os.MkdirAll(evDir, 0o755)
 	eb, merr := json.MarshalIndent(ev, "", " ")
